@@ -1624,6 +1624,8 @@ const TY_POSITIONS: &[(&str, &str, &str)] = &[
     ("template-argument-from-function", "template<typename Th> Th hf(Th ha) { return ha; }\nint hg(# hb) { return V(hf<#>(hb)); }", "# hs; I(hs) int r = hg(hs);"),
     ("template-argument-and-mention", "template<typename Th> int hf(Th ha) { # hl = ha; return V(hl); }", "# hs; I(hs) int r = hf<#>(hs);"),
     ("template-argument-twice", "template<typename Ta, typename Tb> Ta hf(Ta ha, Tb hb) { return ha; }", "# hs; I(hs) int r = V(hf<#, #>(hs, hs));"),
+    ("template-argument-first-and-third", "template<typename Ta, typename Tb, typename Tc> Ta hf(Ta ha, Tb hb, Tc hc) { return ha; }", "# hs; I(hs) int r = V(hf<#, int, #>(hs, 1, hs));"),
+    ("template-argument-three-times", "template<typename Ta, typename Tb, typename Tc> Tc hf(Ta ha, Tb hb, Tc hc) { return hc; }", "# hs; I(hs) int r = V(hf<#, #, #>(hs, hs, hs));"),
     ("structured-buffer-element", "StructuredBuffer<#> hb;", "int r = V(hb.Load(0));"),
     ("rw-structured-buffer-element", "RWStructuredBuffer<#> hb;", "# hs = hb[0]; hb[1] = hs; int r = V(hs);"),
     ("constant-buffer-element", "ConstantBuffer<#> hb;", "int r = V(hb);"),
